@@ -28,9 +28,13 @@ static float in_fval(void){ return in_f32(); }
 #endif
 static void in_pairf(float* a, float* b, int n){ for (int i = 0; i < n; i++){ a[i] = in_fval(); float t = in_fval(); u64 s = in_u64(0, 1); b[i] = s == 1 ? a[i] : t; } }
 static int eq64(const u64* a, u64 na, const u64* b, u64 nb){ if (na != nb) return 0; int e = 1; for (u64 i = 0; i < 4; i++) if (i < na && a[i] != b[i]) e = 0; return e; }
-static int closef(float a, float b, float eps){ float d = a - b; float m = d < 0 ? -d : d; return m < eps; }
+/* reference |a-b| < eps: the larger operand minus the smaller one (IEEE: fl(b-a) == -fl(a-b), so this IS fabs(a-b); that identity and the symmetry of the reference are decided by the solver in h_close_lemma) */
+static int closef(float a, float b, float eps){ float m = a < b ? b - a : a - b; return m < eps; }
+static int closef_fabs(float a, float b, float eps){ float d = a - b; float m = d < 0 ? -d : d; return m < eps; }
 static int closef_default(float a, float b){ float d = a - b; float m = d < 0 ? -d : d; return (double)m < 1e-6; }   /* isclose's default eps */
-static int closed(double a, double b, double eps){ double d = a - b; double m = d < 0 ? -d : d; return m < eps; }
+static int closed(double a, double b, double eps){ double m = a < b ? b - a : a - b; return m < eps; }
+static int closed_fabs(double a, double b, double eps){ double d = a - b; double m = d < 0 ? -d : d; return m < eps; }
+static int close_fp(double x, double y, double eps);
 static u64 prod(const u64* s, u64 n){ u64 p = 1; for (u64 i = 0; i < 3; i++) if (i < n) p *= s[i]; return p; }
 static int same_shape(const u64* s, u64 n, const u64* t, u64 m){ if (n != m) return 0; int e = 1; for (u64 i = 0; i < 3; i++) if (i < n && s[i] != t[i]) e = 0; return e; }
 #define BOTH(expr0, expr1, expect, what) do { int r0_ = (int)(expr0); int r1_ = (int)(expr1); OBS(r0_); OBS(r1_); \
@@ -119,12 +123,23 @@ void h_close_f32(void){
   REACHED();
 }
 void h_close_lemma(void){    /* the reference is symmetric: a fact about IEEE-754 subtraction, decided by the solver (no nmtools code involved) */
-#if LEMMA == 64
+#if LEMMA == 1
+  u32 a = in_any32(), b = in_any32(); double eps = in_f64(); u32 di = a > b ? a - b : b - a;
+  ASSERT(close_fp((double)a, (double)b, eps) == ((double)di < eps), "IEEE expression equals the exact integer |a-b| < eps (unsigned)");
+  /* symmetry follows: the integer |a-b| is symmetric and the equality holds for all (a,b) */
+#elif LEMMA == 2
+  u32 a = in_any32(), b = in_any32(); double eps = in_f64(); i64 d = (i64)(i32)a - (i64)(i32)b; if (d < 0) d = -d;
+  /* SGN: sign pattern of (a,b) as a per-query constant (0: ++, 1: --, 2: +-, 3: -+); the four cases are exhaustive (no verdict in 900 s without the split) */
+  ASSUME(((i32)a < 0) == (SGN == 1 || SGN == 3)); ASSUME(((i32)b < 0) == (SGN == 1 || SGN == 2));
+  ASSERT(close_fp((double)(i32)a, (double)(i32)b, eps) == ((double)d < eps), "IEEE expression equals the exact integer |a-b| < eps (int)");
+#elif LEMMA == 64
   double a = in_f64(), b = in_f64(), eps = in_f64();
   ASSERT(closed(a, b, eps) == closed(b, a, eps), "reference closeness is symmetric (double)");
+  ASSERT(closed(a, b, eps) == closed_fabs(a, b, eps), "reference closeness equals fabs(a-b) < eps (double)");
 #else
   float a = in_f32(), b = in_f32(), eps = in_f32();
   ASSERT(closef(a, b, eps) == closef(b, a, eps), "reference closeness is symmetric (float)");
+  ASSERT(closef(a, b, eps) == closef_fabs(a, b, eps), "reference closeness equals fabs(a-b) < eps (float)");
 #endif
   REACHED();
 }
@@ -132,7 +147,7 @@ void h_close_lemma(void){    /* the reference is symmetric: a fact about IEEE-75
 static int closed_as_float(double a, double b, double eps){ double d = a - b; double m = d < 0 ? -d : d; return (double)(float)m < eps; }
 void h_close_f64(void){
   double c = in_f64(), t = in_f64(), e2 = in_f64(); u64 s = in_u64(0, 1); double d = s ? c : t;
-  double d0 = c - d, m0 = d0 < 0 ? -d0 : d0, d1 = d - c, m1 = d1 < 0 ? -d1 : d1;      /* |c-d| and |d-c| */
+  double m0 = c < d ? d - c : c - d, m1 = d < c ? c - d : d - c;      /* |c-d| and |d-c|: larger minus smaller, as in closed() */
 #ifdef KF_C18_CLOSE_DOUBLE_ROUNDS_TO_FLOAT
   ASSUME((((double)(float)m0 < e2) == (m0 < e2)) && (((double)(float)m1 < e2) == (m1 < e2)));   /* region: rounding the difference to float changes the verdict */
 #endif
@@ -141,7 +156,7 @@ void h_close_f64(void){
 }
 void h_close_f32_f64(void){
   float a = in_f32(); double t = in_f64(), e2 = in_f64(); u64 s = in_u64(0, 1); double d = s ? (double)a : t;
-  double d0 = (double)a - d, m0 = d0 < 0 ? -d0 : d0, d1 = d - (double)a, m1 = d1 < 0 ? -d1 : d1;
+  double m0 = (double)a < d ? d - (double)a : (double)a - d, m1 = d < (double)a ? (double)a - d : d - (double)a;
 #ifdef KF_C18_CLOSE_DOUBLE_ROUNDS_TO_FLOAT
   ASSUME((((double)(float)m0 < e2) == (m0 < e2)) && (((double)(float)m1 < e2) == (m1 < e2)));
 #endif
@@ -149,14 +164,17 @@ void h_close_f32_f64(void){
   REACHED();
 }
 /* integer operands: |a-b| < eps over the integers (exact in double: |a-b| <= 2^32) */
+/* two levels: (1) the nmtools call equals the IEEE expression "larger minus smaller in double, compared with eps" (h_close_uint / h_close_int);
+ * (2) that expression equals the exact integer |a-b| < eps for ALL 32-bit operands and every double eps, and is symmetric: h_close_lemma LEMMA=1 (unsigned) / 2 (int),
+ * a pure IEEE fact decided by the solver without nmtools code (both differences are exact in double: |a-b| <= 2^32). */
+static int close_fp(double x, double y, double eps){ double m = x < y ? y - x : x - y; return m < eps; }
 void h_close_uint(void){
   u32 a = in_any32(), t = in_any32(); u64 s = in_u64(0, 2); u32 b = s == 1 ? a : s == 2 ? a + (t & 3) : t; double eps = in_f64();
 #ifdef KF_C18_CLOSE_UNSIGNED_WRAPS
   { double df = a > b ? (double)(a - b) : (double)(b - a);
     ASSUME(!((a != b && df < eps) || df > 16777216.0)); }   /* the unsigned difference wraps in one of the two call orders; it is rounded to float beyond 2^24 */
 #endif
-  double diff = a > b ? (double)(a - b) : (double)(b - a);
-  BOTH(KS(k_close_u32)(a, b, eps, 0), KS(k_close_u32)(a, b, eps, 1), diff < eps, "unsigned/unsigned");
+  BOTHX(KS(k_close_u32)(a, b, eps, 0), KS(k_close_u32)(a, b, eps, 1), close_fp((double)a, (double)b, eps), close_fp((double)b, (double)a, eps), "unsigned/unsigned");
   REACHED();
 }
 void h_close_int(void){
@@ -165,7 +183,7 @@ void h_close_int(void){
 #ifdef KF_C18_CLOSE_INT_OVERFLOW
   ASSUME(!(d > (1 << 24)));   /* the int difference is rounded to float beyond 2^24 (and overflows int beyond 2^31-1: UB) */
 #endif
-  BOTH(KS(k_close_i32)(a, b, eps, 0), KS(k_close_i32)(a, b, eps, 1), (double)d < eps, "int/int");
+  BOTHX(KS(k_close_i32)(a, b, eps, 0), KS(k_close_i32)(a, b, eps, 1), close_fp((double)(i32)a, (double)(i32)b, eps), close_fp((double)(i32)b, (double)(i32)a, eps), "int/int");
   REACHED();
 }
 
